@@ -224,6 +224,59 @@ def rand_engine_scenario(rng, *, nsends=None, provs=None, rtc=None, allow=None, 
             "ni": 3, "driver": driver}
 
 
+def nonrtc_nesting_scenario(rng, events=None, guards=True):
+    """rtc=False: events sent from callbacks run at once, depth-first, INSIDE the transition in progress.  Many self and
+    internal transitions, and the actions of every phase send events that leave the state: what the outer transition does
+    after its nested event returns (the state assignment in particular) is what is looked at."""
+    d = rand_def(rng, provs=("sm",), dense=rng.choice([0.5, 0.9]), coro=0.0, guards=guards, guard_p=0.3,
+                 validators=False, events=events, nstates=rng.randint(2, 4), ntrans=rng.randint(2, 6))
+    for t in d["trans"]:
+        if rng.random() < 0.45:
+            t["tgt"] = t["src"]
+            t["internal"] = rng.random() < 0.4
+        elif t["src"] != t["tgt"]:
+            t["internal"] = False
+    # reachability is unaffected by what follows only if the backbone survives: keep the definition valid
+    reach, todo = {d["initial"]}, [d["initial"]]
+    while todo:
+        s0 = todo.pop()
+        for t in d["trans"]:
+            if t["src"] == s0 and t["tgt"] not in reach:
+                reach.add(t["tgt"])
+                todo.append(t["tgt"])
+    ids = [x["id"] for x in d["states"]]
+    for s0 in ids:
+        if s0 not in reach:
+            src = rng.choice(sorted(reach))
+            if any(x["id"] == src and x["final"] for x in d["states"]):
+                src = d["initial"]
+            d["trans"].append({"src": src, "tgt": s0, "evs": [rng.choice(d["evlist"])], "internal": False,
+                               "decl": "to", "evjoin": True})
+            reach.add(s0)
+    d["evlist"] = [e for e in (events or EVENTS) if any(e in t["evs"] for t in d["trans"])]
+    # actions on the self / internal transitions (and a few others) send events
+    script = {}
+    selfs = {j for j, t in enumerate(d["trans"], start=1) if t["src"] == t["tgt"]}
+    for j in selfs:
+        for g in rng.sample(["before", "on", "after"], rng.randint(1, 2)):
+            d["cbs"].append({"okind": "T", "owner": "", "tix": j, "group": g, "prov": "sm", "coro": False, "yields": 0,
+                             "gname": "none", "expected": True, "ret": rng.choice(["none", f"r{len(d['cbs']) + 1}"]),
+                             "style": rng.choice(["name", "callable", "method"])})
+    for c, cb in enumerate(d["cbs"], start=1):
+        if cb["group"] in ("cond", "validators"):
+            continue
+        if (cb["okind"] == "T" and cb["tix"] in selfs and rng.random() < 0.8) or rng.random() < 0.15:
+            script[str(c)] = [rng.choice(d["evlist"]) for _ in range(rng.randint(1, 2))]
+    budget = rng.randint(2, 4)
+    opt = {"rtc": False, "allow": rng.random() < 0.4, "start": "", "budget": budget}
+    steps = [{"op": "new", "i": 1, "cls": 1, "opt": opt, "stored": "", "provs": ["sm"], "gv": rand_gv(rng)}]
+    for _ in range(rng.randint(3, 9)):
+        steps.append({"op": "call", "i": 1, "api": rng.choice(["send", "event"]), "ev": rng.choice(d["evlist"]),
+                      "gv": rand_gv(rng)})
+    return {"classes": [d], "steps": steps, "script": script, "failAt": [], "budget": budget, "ni": 3, "driver": "sync",
+            "kind": "nonrtc_nesting"}
+
+
 # ------------------------------------------------------------------------------------------
 # Small-scope families for the exhaustive models (mc/)
 # ------------------------------------------------------------------------------------------
